@@ -32,7 +32,7 @@ CHECKS = {
              text="Every masked-word operation, masked permutation (2..max shares, all first rounds, preserved randomness), state conversion, key mask/extract/randomize and the masked AEAD functions are compared with their unmasked counterparts for generated inputs and tapes; re-randomisation must preserve the value and (pseudo-random tapes) change every configured share.",
              note="Uses the internal masking headers exactly as test/unit does through a per-configuration adapter; 'every share changes' is asserted only for pseudo-random tapes; one genuine defect found and fixed (known_findings.json).", ref="4/C10"),
  "C17": dict(level="exploration", engine="rapidcheck + hypothesis", technique="program enumeration + Hypothesis-generated multi-member translation units compiled with g++ and clang++; rapidcheck differential of every class against the C API over keying paths and overloads",
-             text="Every documented member/overload (445 single-member TUs x 2 compilers) must compile; generated combinations of members must compile; for generated inputs each class must return exactly what the C function returns for 10 keying paths x 3 overloads, incl. forged and too-short byte_array decrypts leaving an empty array, ISAP save_key, masked randomize_key, hash/XOF copy/assign/reset and all update/absorb overloads.",
+             text="Every documented member/overload (one single-member TU each, ~390, x 2 compilers; the count is in the evidence) must compile; generated combinations of members must compile; for generated inputs each class must return exactly what the C function returns for 10 keying paths x 3 overloads, incl. forged and too-short byte_array decrypts leaving an empty array, ISAP save_key, masked randomize_key, hash/XOF copy/assign/reset and all update/absorb overloads.",
              note="'Compiles' = g++ 12 and clang++ 14 at -std=c++11 (-fsyntax-only instantiates used members). Three genuine defects found and fixed (known_findings.json).", ref="4/C17"),
  "C14": dict(level="exploration", technique="rapidcheck model-based PBT: generated session command sequences against a 128-bit big-endian integer model; every carry-chain length 0..16 constructed",
              text="3 C incremental session types and 12 C++ cipher classes; start nonces random-prefix||FF^k for every k in 0..16; packets must equal the one-shot result under the model nonce, the public nonce field must equal the model after every command, failed C++ decrypts must not advance, set_counter/set_nonce(len 0..40) follow the documented layout.",
